@@ -431,6 +431,44 @@ def rule_S4(sc, rep):
     return n
 
 
+def rule_S6(sc, rep):
+    """The byte a scan stops at is not consumed by that scan: the take phase's stop byte is the first byte the next call's skip
+    phase classifies. It has to be classified there from the state the take phase saw, so a take-phase path that can stop the scan
+    (closure result true) stores nothing into the carried state and feeds nothing to the UTF-8 decoder."""
+    b = sc.body
+    n = 0
+    for info in analyse_closure(sc, sc.take):
+        p = info["path"]
+        n += 1
+        can_stop = False
+        for asg in _assignments(info["names"]):
+            def av(node, asg=asg):
+                return asg[hirpp.expr(node)]
+            if all(hir.bool_eval(c, av) == v for c, v in info["conds"]) and hir.bool_eval(p.value, av) is True:
+                can_stop = True
+                break
+        effects = []
+        for t in p.trace:
+            if t[0] == "assign" and sc.is_carried(t[1]["l"]):
+                effects.append("store into the carried state")
+            elif t[0] == "eval":
+                for a in t[1].get("args", []):
+                    a = hir.simp(a)
+                    while a.get("k") == "ref" or (a.get("k") == "un" and a.get("op") == "Deref"):
+                        a = hir.simp(a["e"])
+                    if a.get("k") == "local" and a.get("ty", "").replace("&mut ", "").endswith("Utf8Parser"):
+                        effects.append("byte fed to the UTF-8 decoder")
+        sig = cond_sig(info["conds"]) + ("" if len(info["conds"]) < 2 else ":" + cond_sig(info["conds"][1:]))
+        bad = can_stop and effects
+        rep.check(not bad, "S6", b["path"], f"take-stop:{sig}",
+                  ("S6 stop-byte-is-reclassified-from-the-same-state: this take-phase path can end the run at a byte (which stays "
+                   "in the input and is classified again by the next skip phase) after a " + ", ".join(sorted(set(effects)))
+                   + " — the second classification then starts from a different state than the first") if bad else
+                  ("continues the run" if not can_stop else "stops the run without touching the carried state or the decoder"),
+                  loc(b, p.value if isinstance(p.value, dict) else sc.take))
+    return n
+
+
 def rule_S5(sc, rep):
     """Slices are in-order pieces of the input: both cuts are `bytes.split_at(offset.unwrap_or(bytes.len()))` with
     offset the preceding scan; `*bytes` only ever becomes the right half; the result is the left half of the second cut."""
